@@ -842,6 +842,23 @@ def _fix_deferred_make_exprlike_fst_par(self: fst.FST) -> None:
         a = parent.a
 
 
+def _has_exposed_Lambda(fst_: fst.FST) -> bool:
+    """Whether `fst_` is or contains a `Lambda` which is not inside any delimiters of `fst_` (its own grouping parentheses
+    not counted, they are what is being decided)."""
+
+    for f in (walking := fst_.walk(True)):
+        if f.a.__class__ is Lambda:
+            if f is fst_ or not f.pars().n:
+                return True
+
+            walking.send(False)
+
+        elif f._is_atom(pars=f is not fst_):  # enclosed, or anything below needs its own parentheses
+            walking.send(False)
+
+    return False
+
+
 def _make_exprlike_fst(  # TODO: this needs a refactor, cleanup and simplification
     self: fst.FST,
     code: _PutOneCode,
@@ -917,7 +934,7 @@ def _make_exprlike_fst(  # TODO: this needs a refactor, cleanup and simplificati
         ):
             return True
 
-        if put_ast.__class__ is Lambda:  # Lambda inside FormattedValue/Interpolation needs pars
+        if _has_exposed_Lambda(put_fst):  # Lambda whose ':' is not inside any delimiters needs pars inside FormattedValue/Interpolation, the Lambda itself or one at the end of an IfExp or in a naked Tuple
             s = self
             f = field
 
